@@ -755,6 +755,7 @@ int tls_client_key_shares_from_bytes(SM2_Z256_POINT *sm2_point, const uint8_t **
 int tls13_server_hello_extensions_get(const uint8_t *exts, size_t extslen, SM2_Z256_POINT *sm2_point)
 {
 	uint16_t version;
+	int key_share = 0;
 	while (extslen) {
 		uint16_t ext_type;
 		const uint8_t *ext_data;
@@ -783,12 +784,17 @@ int tls13_server_hello_extensions_get(const uint8_t *exts, size_t extslen, SM2_Z
 				error_print();
 				return -1;
 			}
+			key_share = 1;
 			break;
 		//default:
 			// FIXME: not all exts handled			
 			//error_print();
 			//return -1;
 		}
+	}
+	if (!key_share) {
+		error_print();
+		return -1;
 	}
 	return 1;
 }
